@@ -132,6 +132,9 @@ func (x *Exec) doSelect(site string, cases []selCase, hasDefault bool) (int, any
 	}
 	x.point(o)
 	if o.done {
+		if Debug {
+			fmt.Printf("  [t%d] channel op completed by partner: case %d\n", me.id, o.fired)
+		}
 		return o.fired, o.val, o.ok
 	}
 	var ready []int
@@ -152,6 +155,9 @@ func (x *Exec) doSelect(site string, cases []selCase, hasDefault bool) (int, any
 	}
 	i := ready[k]
 	c := cases[i]
+	if Debug {
+		fmt.Printf("  [t%d] select fires case %d of %d ready=%v (done=%v)\n", me.id, i, len(cases), ready, o.done)
+	}
 	cs := c.cs
 	cs.modelUsed = true
 	if c.send {
